@@ -266,6 +266,15 @@ def r_eqhash(ctx) -> None:
             if isinstance(tg, ast.Tuple) and {core.src(gen.elt.left), core.src(gen.elt.comparators[0])} == {core.src(e) for e in tg.elts}:
                 pairwise = True
     ctx.check(pairwise, 'R-EQHASH', seq, 'Schema equality compares the fields pairwise in declaration order (permuted schemas are different schemas)', seq.node, key='Schema:positional')
+    # equality is a conjunction of its components (same class AND same content AND ...): a disjunction makes objects that share
+    # one component equal (Array(Integer) == Array(String) through the class test alone)
+    for ci in prog.classes.values():
+        if ci.module.name in FAMILY_MODULES and '__eq__' in ci.methods:
+            fn = prog.func(f'{ci.ref}.__eq__')
+            for r in core.walk_local(fn.node):
+                if isinstance(r, ast.Return) and r.value is not None:
+                    ors = [b for b in ast.walk(r.value) if isinstance(b, ast.BoolOp) and isinstance(b.op, ast.Or)]
+                    ctx.check(not ors, 'R-EQHASH', fn, f'{ci.qual}.__eq__ combines its components by conjunction only (`{core.src(r.value)[:80]}`)', r, key=f'{ci.qual}:eq-conjunction')
     # element-wise equalities must not truncate
     for ci in prog.classes.values():
         if ci.module.name in FAMILY_MODULES and '__eq__' in ci.methods:
@@ -399,6 +408,7 @@ def identity_repr(ctx, tenv) -> None:
     # two statements differing in that member become one
     rest = [f for f in prog.functions([m for m in prog.modules if m in FAMILY_MODULES]) if f not in funcs]
     shared.r_truthy(ctx, tenv, rest, rule='R-TRUTHY')
+    shared.r_nebool(ctx, tenv, funcs + rest)
     # where repr() of a DSL object becomes a key
     users = []
     for ref in ('forml.provider.feed.lazy:Origin.key', 'forml.provider.feed.lazy:_Columns.extract'):
